@@ -39,3 +39,12 @@ Fixpoint t2s_aux (es : list smentry) (l c : Z) (acc : option (Z * Z)) : option (
   | e :: es' => t2s_aux es' l c (if Z.eqb (se_tl e) l && Z.eqb (se_tc e) c then Some (se_sl e, se_sc e) else acc)
   end.
 Definition t2s (es : list smentry) (l c : Z) : option (Z * Z) := t2s_aux es l c None.
+
+(** no two insertions share a template position, and no two share a generated position (decidable; evaluated
+    by the C16 check on the entries of every accepted file) *)
+Fixpoint zpair_mem (k : Z * Z) (l : list (Z * Z)) : bool :=
+  match l with [] => false | x :: l' => (Z.eqb (fst x) (fst k) && Z.eqb (snd x) (snd k)) || zpair_mem k l' end.
+Fixpoint zpairs_nodup (l : list (Z * Z)) : bool :=
+  match l with [] => true | x :: l' => negb (zpair_mem x l') && zpairs_nodup l' end.
+Definition keys_unique (es : list smentry) : bool :=
+  zpairs_nodup (map (fun e => (se_sl e, se_sc e)) es) && zpairs_nodup (map (fun e => (se_tl e, se_tc e)) es).
